@@ -3,6 +3,8 @@ package project
 import (
 	"io"
 	"os"
+
+	"github.com/pelletier/go-toml/v2"
 )
 
 // C19: writing a configuration and loading it back yields the same configuration, and writing the
@@ -25,7 +27,9 @@ var vStubTable = map[string]string{
 	"(*os.File).Close": "vFileClose",
 	"fmt.Fprintf":      "vFprintf",
 	"fmt.Fprintln":     "vFprintln",
-	"github.com/pgavlin/dawn/internal/project.encodeValue": "vEncodeValue",
+	"github.com/pelletier/go-toml/v2.NewEncoder":                 "vNewEncoder",
+	"(*github.com/pelletier/go-toml/v2.Encoder).SetTablesInline": "vSetTablesInline",
+	"(*github.com/pelletier/go-toml/v2.Encoder).Encode":          "vEncode",
 	"github.com/pelletier/go-toml/v2.Unmarshal":            "vUnmarshal",
 }
 
@@ -46,8 +50,20 @@ func vFprintln(w io.Writer, a ...any) (int, error) {
 	return 1, nil
 }
 
-// vEncodeValue: the encoding of one value is an opaque, invertible token (go-toml is trusted to
-// round-trip a single string or array of strings).
+// The go-toml encoder is replaced at its API: NewEncoder captures the writer, Encode writes an opaque,
+// invertible token (go-toml is trusted to round-trip a single string or array of strings). dawn's
+// own encodeValue around it is executed from its SSA.
+var vEncW io.Writer
+
+func vNewEncoder(w io.Writer) *toml.Encoder { vEncW = w; return &toml.Encoder{} }
+
+func vSetTablesInline(e *toml.Encoder, inline bool) *toml.Encoder { return e }
+
+func vEncode(e *toml.Encoder, v any) error {
+	_, err := io.WriteString(vEncW, vEncodeValue(v))
+	return err
+}
+
 func vEncodeValue(v any) string {
 	switch v := v.(type) {
 	case string:
@@ -80,6 +96,27 @@ func vUntokList(s string) []string {
 	return out
 }
 
+// vValue reads one emitted value: a token written by the (trusted) encoder, or text that dawn wrote
+// itself, which must then be a TOML string by TOML's own rules: a literal string '...' without
+// apostrophes or control characters (tab excepted; DEL is a control character), or a basic string
+// "..." without quotes, backslashes or control characters.
+func vValue(s string) (string, bool) {
+	if vIsTok(s) {
+		return vUntok(s), true
+	}
+	if len(s) >= 2 && (s[0] == '\'' || s[0] == '"') && s[len(s)-1] == s[0] {
+		in := s[1 : len(s)-1]
+		for i := 0; i < len(in); i++ {
+			c := in[i]
+			if c == s[0] || (c < 0x20 && c != '\t') || c == 0x7f || (s[0] == '"' && c == '\\') {
+				return "", false
+			}
+		}
+		return in, true
+	}
+	return "", false
+}
+
 // vValidBareKey: TOML bare keys are non-empty and consist of A-Za-z0-9_- only.
 func vValidBareKey(name string) bool {
 	if name == "" {
@@ -103,11 +140,13 @@ func vRead(emits []vEmit) (*Config, bool) {
 		switch e.format {
 		case "\n":
 		case "name = %v\n":
-			ok = ok && !inReqs && vIsTok(e.args[0])
-			c.Name = vUntok(e.args[0])
+			v, good := vValue(e.args[0])
+			ok = ok && !inReqs && good
+			c.Name = v
 		case "version = %v\n":
-			ok = ok && !inReqs && vIsTok(e.args[0])
-			c.Version = vUntok(e.args[0])
+			v, good := vValue(e.args[0])
+			ok = ok && !inReqs && good
+			c.Version = v
 		case "ignore = %v\n":
 			ok = ok && !inReqs
 			c.Ignore = vUntokList(e.args[0])
@@ -120,8 +159,8 @@ func vRead(emits []vEmit) (*Config, bool) {
 				return c, false
 			}
 			key := e.args[0]
-			if vIsTok(key) {
-				key = vUntok(key)
+			if k, good := vValue(key); good {
+				key = k
 			} else if !vValidBareKey(key) {
 				vReach("invalid-bare-key")
 				return c, false // the document does not parse (or parses to something else)
@@ -129,7 +168,12 @@ func vRead(emits []vEmit) (*Config, bool) {
 			if _, dup := c.Requirements[key]; dup {
 				return c, false // duplicate key
 			}
-			c.Requirements[key] = RequirementConfig{Path: vUntok(e.args[1]), Version: vUntok(e.args[2])}
+			pv, ok1 := vValue(e.args[1])
+			vv, ok2 := vValue(e.args[2])
+			if !ok1 || !ok2 {
+				return c, false
+			}
+			c.Requirements[key] = RequirementConfig{Path: pv, Version: vv}
 		default:
 			return c, false
 		}
@@ -277,24 +321,29 @@ func VHarnessC19Twin() {
 	}
 }
 
-// vCleanForm: a path in clean form, taken syntactically: non-empty components without '@' that are
-// not "." or "..", joined by single '/', with an optional final @vN, N >= 2.
+// vCleanForm: a path in clean form, taken syntactically: components separated by single '/', none
+// empty, "." or ".."; the last component may end in "@<major>" with a major other than "", "v0"
+// and "v1" (which JoinPathVersion drops) and a non-empty part before it; '@' is otherwise an
+// ordinary character (scoped directories such as acme/@tools/lint are clean paths).
 func vCleanForm(p string) bool {
-	base, major := p, ""
-	for i := len(p) - 1; i >= 0 && p[i] != '/'; i-- {
-		if p[i] == '@' {
-			base, major = p[:i], p[i+1:]
-			break
+	if p == "" {
+		return false
+	}
+	last := 0
+	for i := 0; i < len(p); i++ {
+		if p[i] == '/' {
+			last = i + 1
 		}
 	}
-	if major != "" || len(base) != len(p) {
-		if len(major) < 2 || major[0] != 'v' || major[1] == '0' || (len(major) == 2 && major[1] == '1') {
-			return false
-		}
-		for i := 1; i < len(major); i++ {
-			if major[i] < '0' || major[i] > '9' {
+	base := p
+	for i := len(p) - 1; i >= last; i-- {
+		if p[i] == '@' {
+			major := p[i+1:]
+			if major == "" || major == "v0" || major == "v1" {
 				return false
 			}
+			base = p[:i]
+			break
 		}
 	}
 	if base == "" {
@@ -306,11 +355,6 @@ func vCleanForm(p string) bool {
 			comp := base[start:i]
 			if comp == "" || comp == "." || comp == ".." {
 				return false
-			}
-			for j := 0; j < len(comp); j++ {
-				if comp[j] == '@' {
-					return false
-				}
 			}
 			start = i + 1
 		}
